@@ -62,6 +62,12 @@ Definition listed (m : bmap) (p : pid) (now : Z) : Z :=
       else if now <? e_start info + e_dur info then 1 else 0
   end.
 
+(* BlockedPeers skips an entry whose peer id does not yield an Ethereum address
+   (GetEthAddressFromPeerID fails: the id does not embed a secp256k1 key); [addr_ok] is that oracle.
+   [listed] is the projection on ids with an address, which is what the Listing event observes. *)
+Definition listed_go (addr_ok : pid -> bool) (m : bmap) (p : pid) (now : Z) : Z :=
+  if addr_ok p then listed m p now else 0.
+
 (* --- the gater ------------------------------------------------------------------------ *)
 (* [has_blocker]: setBlocker was called (g.blocker != nil) *)
 Definition gater_peer_check (has_blocker : bool) (m : bmap) (p : pid) (now : Z) : bmap * bool :=
